@@ -168,6 +168,14 @@ ADDENDA5 = {
     'C19': ' The concatenating readers hand out every row they draw and the CSV readers are not configured to trim / skip / re-split rows.',
 }
 
+ADDENDA6 = {
+    'C01': ' The constructor opens every well-formed file: its version / length gates (R10.1, R10.4) are decided here too.',
+    'C09': ' Commands that may write their FST to stdout print nothing else there (R09.11).',
+    'C10': ' The CLI hands files to Fst::new without a length gate of its own.',
+    'C13': ' The --sorted CLI builds stream their input (R13.7).',
+    'C18': ' Str never claims will_always_match.',
+}
+
 NOT_APPLICABLE = {
     'C17': 'Acceptance is a property of a DFA constructed at run time from the query; no clause has a structural counterpart that a sound static rule within reach could decide (DESIGN.md §6).',
 }
@@ -182,7 +190,7 @@ def main():
         if pid not in CLAIMS:
             continue
         cat, text, note, tech, ref = CLAIMS[pid]
-        text = text + ADDENDA.get(pid, '') + ADDENDA2.get(pid, '') + ADDENDA3.get(pid, '') + ADDENDA4.get(pid, '') + ADDENDA5.get(pid, '')
+        text = text + ADDENDA.get(pid, '') + ADDENDA2.get(pid, '') + ADDENDA3.get(pid, '') + ADDENDA4.get(pid, '') + ADDENDA5.get(pid, '') + ADDENDA6.get(pid, '')
         checks.append({
             'property_id': pid,
             'quick_cmd': './check %s --tier quick' % pid,
